@@ -1,56 +1,31 @@
 package main
 
 import (
-	"bytes"
-	"fmt"
 	"os"
+	"runtime"
+	"runtime/pprof"
 
 	"github.com/coregx/coregex"
-	"github.com/coregx/coregex/meta"
-	"github.com/coregx/coregex/nfa"
-	"verif/cov"
 )
 
 func main() {
-	pats := os.Args[1:]
-	for _, p := range pats {
-		re, err := coregex.Compile(p)
-		if err != nil {
-			fmt.Println(p, err)
-			continue
-		}
-		n0, _ := nfa.NewDefaultCompiler().Compile(p)
-		S := n0.States()
-		eng, _ := meta.Compile(p)
-		fmt.Printf("%-40q S=%d strat=%s\n", p, S, eng.Strategy())
-		for _, fam := range []string{"a", "a1"} {
-			fmt.Printf("   %-3s", fam)
-			for n := 1024; n <= 65536; n *= 2 {
-				h := bytes.Repeat([]byte(fam), n/len(fam))
-				for _, api := range []string{"M", "F", "S"} {
-					cov.Reset()
-					switch api {
-					case "M":
-						re.Match(h)
-					case "F":
-						re.FindIndex(h)
-					case "S":
-						re.FindSubmatchIndex(h)
-					}
-					w, _, err := cov.Sum()
-					if err != nil {
-						fmt.Println(err)
-						return
-					}
-					fmt.Printf(" %s%.1f", api, float64(w)/float64(S*(n+1)))
-					if w > 3e8 {
-						n = 1 << 30
-						break
-					}
-				}
-				fmt.Print(" |")
-			}
-			fmt.Println()
+	runtime.MemProfileRate = 1
+	re := coregex.MustCompile(os.Args[1])
+	h := []byte(os.Args[2])
+	eng := re.VerifEngine()
+	re.Count(h, -1)
+	eng.FindIndices(h)
+	runtime.GC()
+	for i := 0; i < 1000; i++ {
+		switch os.Args[3] {
+		case "count":
+			re.Count(h, -1)
+		case "find":
+			eng.FindIndices(h)
 		}
 	}
+	runtime.GC()
+	f, _ := os.Create("/verif/work/mem.prof")
+	pprof.Lookup("allocs").WriteTo(f, 0)
+	f.Close()
 }
